@@ -114,6 +114,9 @@ def rules():
     return out
 
 
+COLLIDING_BODY = {'branch': 'master', 'pr_id': -3, 'job_id': 'other'}
+
+
 def call_api(ep, name, method, kwargs, body, v, sym):
     """Call the registered view; returns (status, jobs put, job or None)."""
     import flask
@@ -153,6 +156,12 @@ def api_harness(cfg, twin=False):
                 body = dict(branch_from=case['branch_from'])
         elif name == 'GetJob':
             kwargs = dict(job_id='nope')
+        # the JSON body is not validated beyond `branch_from`: it may carry keys named like
+        # the URL parameters (with other values) or unrelated keys
+        extra = ctx.choose('body_extra', 3)
+        if extra:
+            body = dict(body or {})
+            body.update(COLLIDING_BODY if extra == 1 else {'comment': 'please'})
         status, jobs = call_api(ep, name, method, kwargs, body, v, True)
         need_admin = name in ADMIN_ONLY
         allowed = z3.And(v['user'], z3.Or(z3.BoolVal(not need_admin), v['admin']))
@@ -173,7 +182,8 @@ def api_harness(cfg, twin=False):
                 for k, val in kwargs.items():
                     ok = ok and (j.settings[k] is val)
                 for k, val in (body or {}).items():
-                    ok = ok and j.settings[k] == val
+                    if k not in kwargs:
+                        ok = ok and j.settings[k] == val
                 ok = ok and str(j.user) == 'someuser'
                 conds.append(('job carries the validated parameters', z3.BoolVal(bool(ok))))
         else:
@@ -189,6 +199,7 @@ def api_harness(cfg, twin=False):
                 vals = dict(user=model_value(m, v['user']), admin=model_value(m, v['admin']))
                 if name == 'EvalPullRequest':
                     vals['pr_id'] = model_value(m, kwargs['pr_id'].t)
+                vals['body_extra'] = extra
                 return dict(bad=vals, label=label, status=status, njobs=len(jobs))
         return dict(bad=None, label=None, status=status, njobs=len(jobs))
     return h
@@ -206,10 +217,14 @@ def api_concrete(ep, name, method, case, vals):
             body = dict(branch_from=case['branch_from'])
     elif name == 'GetJob':
         kwargs = dict(job_id='nope')
+    if vals.get('body_extra'):
+        body = dict(body or {})
+        body.update(COLLIDING_BODY if vals['body_extra'] == 1 else {'comment': 'please'})
     status, jobs = call_api(ep, name, method, kwargs, body, vals, False)
     allowed = bool(vals['user']) and (name not in ADMIN_ONLY or bool(vals['admin']))
     if name in JOB_ENDPOINTS:
-        return (len(jobs) == 1) != (allowed and valid) or \
+        carried = all(j.settings[k] == val for j in jobs for k, val in kwargs.items())
+        return (len(jobs) == 1) != (allowed and valid) or not carried or \
             (not (allowed and valid) and status not in (400, 401, 403, 404, 500))
     return len(jobs) != 0 or ((status in (200, 404)) != bool(vals['user']))
 
